@@ -229,7 +229,13 @@ func (e *Engine) point(site string, id uint64) {
 		e.mu.Unlock()
 		return
 	}
-	if rl := role(site); e.enabled != nil && !e.enabled[rl] && rl != "compactor" && rl != "merge" {
+	rl := role(site)
+	if rl == "skl" && (e.enabled == nil || !e.enabled["skl"]) {
+		// the per-CAS skiplist points are opt-in (C22 scenario only)
+		e.mu.Unlock()
+		return
+	}
+	if e.enabled != nil && !e.enabled[rl] && rl != "compactor" && rl != "merge" {
 		// (ticker-driven goroutines always park at their tick: left free-running
 		// they would spin through every tick of a long simulated clock jump)
 		// still give the goroutine its stable name
